@@ -1116,15 +1116,39 @@ func ruleInStreamGuards(c *core.Ctx, rule string) {
 				}
 			}
 			// stores to posWriter.ref (the reference that keys string encryption)
+			var refStores []*core.V
 			for _, v := range g.Vs {
 				if as, ok := v.AST.(*ast.AssignStmt); ok {
 					for _, l := range as.Lhs {
 						if _, ok := core.FieldSel(info, l, "pdf", "posWriter", "ref"); ok {
 							o.At(fn.Site(as, "current object reference"))
+							refStores = append(refStores, v)
 							if !g.EdgeDominates(v, core.EdgeRef{From: guard, Label: core.EdgeFalse}) {
 								o.FailAt(fn.Site(as, ""), "the writer's current object reference is changed while a stream is open (its dictionary would be encrypted under the wrong key)")
 							}
 						}
+					}
+				}
+			}
+			// OpenStream writes the stream dictionary later (when the first data arrives): every
+			// successful return must have installed the stream's own reference, whatever the
+			// encryption settings of the stream data are (strings in the dictionary of a stream
+			// with an Identity crypt filter are still encrypted under the object's key)
+			if e.name == "(*Writer).OpenStream" {
+				for _, r := range g.Returns() {
+					rs := r.AST.(*ast.ReturnStmt)
+					if len(rs.Results) != 2 || !core.IsNil(info, rs.Results[1]) {
+						continue
+					}
+					o.Count(1)
+					dom := false
+					for _, sv := range refStores {
+						if g.Dominates(sv, r) {
+							dom = true
+						}
+					}
+					if !dom {
+						o.FailAt(fn.Site(rs, ""), "%s: OpenStream can return successfully without having installed the stream's reference as the current object reference: the strings of its dictionary are encrypted under the previous object's key", c.Prog.Pos(rs.Pos()))
 					}
 				}
 			}
